@@ -144,6 +144,20 @@ static bool in_domain(Fmt f, const Json& v, bool root = true) {
 template <class Json>
 static std::error_code do_encode(Fmt f, const Json& v, std::vector<uint8_t>& out, int route, bool pack, std::string& what) {
     std::error_code ec;
+    if (route >= 2) {        // stream sinks: encode_X(v, std::ostream) and the stream encoder driven by dump()
+        std::ostringstream os;
+        try {
+            switch (f) {
+            case CBOR: { cbor::cbor_options o; o.pack_strings(pack); if (route == 2) cbor::encode_cbor(v, os, o); else { cbor::cbor_stream_encoder e(os, o); v.dump(e, ec); } break; }
+            case MSGPACK: if (route == 2) msgpack::encode_msgpack(v, os); else { msgpack::msgpack_stream_encoder e(os); v.dump(e, ec); } break;
+            case UBJSON: if (route == 2) ubjson::encode_ubjson(v, os); else { ubjson::ubjson_stream_encoder e(os); v.dump(e, ec); } break;
+            case BSON: if (route == 2) bson::encode_bson(v, os); else { bson::bson_stream_encoder e(os); v.dump(e, ec); } break;
+            }
+        } catch (const ser_error& e) { ec = e.code(); what = e.what(); }
+        catch (const json_exception& e) { ec = std::make_error_code(std::errc::invalid_argument); what = e.what(); }
+        std::string t = os.str(); out.assign(t.begin(), t.end());
+        return ec;
+    }
     try {
         switch (f) {
         case CBOR: { cbor::cbor_options o; o.pack_strings(pack);
@@ -204,7 +218,7 @@ static Verdict judge(Fmt f, const Json& v, int eroute, int droute, bool pack) {
 
 template <class Json>
 static void roundtrip(Fmt f, const Json& v, Rng& r, const char* policy) {
-    int eroute = (int)r.below(2), droute = (int)r.below(3);
+    int eroute = (int)r.below(4), droute = (int)r.below(3);
     bool pack = f == CBOR && r.chance(1, 3);
     Verdict vd = judge(f, v, eroute, droute, pack);
     if (vd.refused) H.count_(std::string(fmt_name[f]) + ".encode_refused");
@@ -218,11 +232,11 @@ static void roundtrip(Fmt f, const Json& v, Rng& r, const char* policy) {
     if (!vd.refused) { H.count_(std::string(fmt_name[f]) + ".judged"); if (pack) H.count_("cbor.judged_pack_strings"); }
 }
 
-// every encode route (bytes, stream) x decode route (bytes, stream, cursor) for one value: used for the fixed catalogue, where a
+// every encode route (encode_X into bytes, bytes encoder, encode_X into a stream, stream encoder) x decode route (bytes, stream, cursor) for one value: used for the fixed catalogue, where a
 // route-specific fault (e.g. in a stream sink once its buffer overflows) must not depend on the draw of the routes
 template <class Json>
 static void roundtrip_all_routes(Fmt f, const Json& v, const char* policy) {
-    for (int eroute = 0; eroute < 2; ++eroute) for (int droute = 0; droute < 3; ++droute) for (int pk = 0; pk < (f == CBOR ? 2 : 1); ++pk) {
+    for (int eroute = 0; eroute < 4; ++eroute) for (int droute = 0; droute < 3; ++droute) for (int pk = 0; pk < (f == CBOR ? 2 : 1); ++pk) {
         Verdict vd = judge(f, v, eroute, droute, pk != 0);
         if (!vd.sig.empty()) H.violation(vd.sig, J().str("policy", policy).num("enc_route", eroute).num("dec_route", droute).boolean("pack_strings", pk != 0).str("value", describe(v).substr(0, 600)).str("bytes", hex(vd.bytes).substr(0, 600)).str("why", vd.why).done());
         else if (!vd.refused) H.count_(std::string(fmt_name[f]) + ".judged_all_routes");
